@@ -272,11 +272,17 @@ def check_validator(ctx, case):
     undefined, cyclic, under_not = analyse(rules)
     fault = case['fault']
     registered = list(texts)
-    file_rules = dict(texts)
+    # some names are defined by their registered default only (the file does not mention them): they belong to the rule
+    # set that is validated just the same
+    only_registered = set(case.get('only_registered', []))
+    file_rules = {k: v for k, v in texts.items() if k not in only_registered}
     if fault == 'unregistered':
         file_rules['zz:unknown'] = 'role:a'
         expect_extra = True
-    elif fault == 'unparseable':
+    elif fault in ('unparseable', 'unparseable-nontext') and not file_rules:
+        fault = 'none'
+        expect_extra = False
+    elif fault in ('unparseable', 'unparseable-nontext'):
         victim = sorted(file_rules)[0]
         file_rules[victim] = case.get('garbage', '(role:a))')
         rules = dict(rules)
@@ -296,12 +302,17 @@ def check_validator(ctx, case):
         conf.set_override('policy_file', path, group='oslo_policy')
         conf.set_override('policy_dirs', [], group='oslo_policy')
         enf = policy.Enforcer(conf)
-        enf.register_defaults([policy.RuleDefault(n, 'role:a') for n in registered])
+        enf.register_defaults([policy.RuleDefault(n, texts[n] if n in only_registered else 'role:a') for n in registered])
         out = io.StringIO()
-        with mock.patch('oslo_policy.generator._get_enforcer', return_value=enf):
+        import stevedore
+        ext = stevedore.extension.Extension(name='pv', entry_point=None, plugin=None, obj=enf)
+        mgr = stevedore.named.NamedExtensionManager.make_test_instance([ext], namespace='pv')
+        with mock.patch('stevedore.named.NamedExtensionManager', return_value=mgr):
             with contextlib.redirect_stdout(out):
                 try:
-                    got = generator._validate_policy('pv')
+                    got = generator._validate_policy('pv')          # what oslopolicy-validator runs
+                except AttributeError:
+                    got = 'EXC:validator-entry-moved'
                 except Exception as e:
                     got = 'EXC:' + type(e).__name__
     finally:
@@ -345,8 +356,14 @@ def run(ctx):
             break
         case = gen_graph(ctx.rnd)
         case['validator'] = True
-        case['fault'] = ctx.rnd.choice(['none'] * 5 + ['missing-file', 'unregistered', 'unparseable'])
+        case['fault'] = ctx.rnd.choice(['none'] * 5 + ['missing-file', 'unregistered', 'unparseable', 'unparseable-nontext'])
+        if ctx.rnd.random() < 0.5 and len(case['rules']) > 1:
+            names = sorted(case['rules'])
+            case['only_registered'] = ctx.rnd.sample(names, ctx.rnd.randint(1, len(names) - 1))
         case['fmt'] = ctx.rnd.choice(['yaml', 'json'])
+        if case['fault'] == 'unparseable-nontext':
+            # a wholly unparseable rule need not be text
+            case['garbage'] = ctx.rnd.choice([['bar'], [['bar']], 12, True, {'role': 'admin'}, 1.5])
         if case['fault'] == 'unparseable':
             case['garbage'] = ctx.rnd.choice(['(role:a))', 'role:a and', 'and', 'role:a role:b', '((role:a)', 'not', 'role:a or or role:b'])
         check_validator(ctx, case)
